@@ -98,8 +98,8 @@ Items(h, v) == h[v.addr].items
 LenOf(h, v) == Len(h[v.addr].items)
 
 \* dict helpers on a sequence of <<key, value>> pairs
-RECURSIVE DKeyIndex(_, _, _)
-DKeyIndex(ps, key, i) == IF i > Len(ps) THEN 0 ELSE IF ps[i][1] = key THEN i ELSE DKeyIndex(ps, key, i + 1)
+\* index of key in a sequence of pairs (keys are unique), 0 if absent; not recursive: dicts can hold 10000 entries
+DKeyIndex(ps, key, i) == LET S == {j \in i..Len(ps) : ps[j][1] = key} IN IF S = {} THEN 0 ELSE CHOOSE j \in S : \A k \in S : j <= k
 DHas(ps, key) == DKeyIndex(ps, key, 1) # 0
 DGet(ps, key) == ps[DKeyIndex(ps, key, 1)][2]
 DSet(ps, key, v) == LET i == DKeyIndex(ps, key, 1) IN
@@ -150,7 +150,9 @@ ValEq(h, a, b, fuel) ==
            [] OTHER -> B3(a = b)          \* lambda / builtin / hostfn: identity
 \* Python compares list elements with identity-or-equality
 SeqEq(h, xs, ys, i, fuel) ==
-    IF i > Len(xs) THEN T3
+    IF i = 1 /\ Len(xs) > 64 THEN (IF xs = ys THEN T3 ELSE IF \A j \in 1..Len(xs) : xs[j].t \notin {"list", "dict", "tuple", "opaque"} /\ ys[j].t \notin {"list", "dict", "tuple", "opaque"}
+                                                      THEN B3(\A j \in 1..Len(xs) : ValEq(h, xs[j], ys[j], 2) = T3) ELSE U3)
+    ELSE IF i > Len(xs) THEN T3
     ELSE LET e == ValEq(h, xs[i], ys[i], fuel) IN
          IF e # T3 THEN e ELSE SeqEq(h, xs, ys, i + 1, fuel)
 DictSub(h, ps, qs, i, fuel) ==
@@ -181,7 +183,8 @@ ValLt(h, a, b, fuel) ==
     ELSE TY3
 \* lexicographic: first position where elements differ (by ==) decides by <
 SeqLt(h, xs, ys, i, fuel) ==
-    IF i > Len(xs) \/ i > Len(ys) THEN B3(Len(xs) < Len(ys))
+    IF Len(xs) > 2500 \/ Len(ys) > 2500 THEN U3
+    ELSE IF i > Len(xs) \/ i > Len(ys) THEN B3(Len(xs) < Len(ys))
     ELSE LET e == ValEq(h, xs[i], ys[i], fuel) IN
          IF e = U3 THEN U3
          ELSE IF e = T3 THEN SeqLt(h, xs, ys, i + 1, fuel)
@@ -232,13 +235,13 @@ ValStr(h, v, asRepr, fuel) ==
            [] v.t = "int" -> IntToStr(IRep(v))
            [] v.t = "float" -> v.repr
            [] v.t = "str" -> IF asRepr THEN StrRepr(v.s) ELSE v.s
-           [] v.t = "list" -> LET inner == JoinRepr(h, Items(h, v), 1, <<>>, fuel - 1) IN
+           [] v.t = "list" -> LET inner == IF LenOf(h, v) > 2500 THEN BadStr ELSE JoinRepr(h, Items(h, v), 1, <<>>, fuel - 1) IN
                               IF IsBadStr(inner) THEN BadStr ELSE <<91>> \o inner \o <<93>>
            [] v.t = "tuple" -> LET inner == JoinRepr(h, v.items, 1, <<>>, fuel - 1) IN
                                IF IsBadStr(inner) THEN BadStr
                                ELSE IF Len(v.items) = 1 THEN <<40>> \o inner \o <<44, 41>>
                                ELSE <<40>> \o inner \o <<41>>
-           [] v.t = "dict" -> LET inner == JoinDictRepr(h, Items(h, v), 1, <<>>, fuel - 1) IN
+           [] v.t = "dict" -> LET inner == IF LenOf(h, v) > 2500 THEN BadStr ELSE JoinDictRepr(h, Items(h, v), 1, <<>>, fuel - 1) IN
                               IF IsBadStr(inner) THEN BadStr ELSE <<123>> \o inner \o <<125>>
            [] OTHER -> BadStr
 JoinRepr(h, xs, i, acc, fuel) ==
@@ -260,22 +263,17 @@ ToRepr(h, v) == ValStr(h, v, TRUE, Fuel)
 (* Reachability and deep copy (copy.deepcopy): lists, dicts and tuples are *)
 (* copied with sharing preserved (memo); functions are shared.             *)
 (***************************************************************************)
-RECURSIVE ReachV(_, _, _, _)
-RECURSIVE ReachSeq(_, _, _, _, _)
-\* set of addresses reachable from v, accumulating in seen; fuel guards cycles only via seen
-ReachV(h, v, seen, fuel) ==
-    IF fuel = 0 THEN seen
-    ELSE CASE v.t \in {"list", "dict"} ->
-               IF v.addr \in seen THEN seen
-               ELSE LET its == h[v.addr].items
-                        vals == IF v.t = "list" THEN its ELSE [i \in 1..Len(its) |-> its[i][2]] IN
-                    ReachSeq(h, vals, 1, seen \cup {v.addr}, fuel - 1)
-           [] v.t = "tuple" -> ReachSeq(h, v.items, 1, seen, fuel - 1)
-           [] OTHER -> seen
-ReachSeq(h, xs, i, seen, fuel) ==
-    IF i > Len(xs) THEN seen ELSE ReachSeq(h, xs, i + 1, ReachV(h, xs[i], seen, fuel), fuel)
-
-Reach(h, v) == ReachV(h, v, {}, 64)
+RECURSIVE DirectV(_)
+\* addresses a value refers to directly (tuples are values, so their components count)
+DirectV(v) == CASE v.t \in {"list", "dict"} -> {v.addr}
+                [] v.t = "tuple" -> UNION {DirectV(v.items[i]) : i \in 1..Len(v.items)}
+                [] OTHER -> {}
+DirectObj(o) == IF o.t = "list" THEN UNION {DirectV(o.items[i]) : i \in 1..Len(o.items)}
+                ELSE UNION {DirectV(o.items[i][2]) : i \in 1..Len(o.items)}
+RECURSIVE Closure(_, _)
+\* least fixpoint; no recursion over elements (containers can hold 10000 elements), cycles are harmless
+Closure(h, S) == LET T == S \cup UNION {DirectObj(h[a]) : a \in S} IN IF T = S THEN S ELSE Closure(h, T)
+Reach(h, v) == Closure(h, DirectV(v))
 
 RECURSIVE AddrsToSeq(_)
 AddrsToSeq(S) == IF S = {} THEN <<>> ELSE LET x == CHOOSE y \in S : \A z \in S : y <= z IN <<x>> \o AddrsToSeq(S \ {x})
